@@ -37,7 +37,8 @@ from penman.epigraph import Epidatum          # noqa: E402
 
 ROLES = [':ARG0', ':ARG0-of', 'ARG1', ':mod', ':domain', ':domain-of', '/', ':instance', ':a-of-of', ':consist-of',
          ':consist', '', ':', ':polarity', ':ARG0~1', ':ARG1~e.2,3', ':op1', ':op10', ':op2-of-of-of', 'mod-of',
-         ':location', ':quant', ':wiki', ':-of', '-of', ':r~x', ':R', ':S~2', ':ARG2-of', ':subevent-of', ':prep-on']
+         ':location', ':quant', ':wiki', ':-of', '-of', ':r~x', ':R', ':S~2', ':ARG2-of', ':subevent-of', ':prep-on',
+         ':point-of-view', ':point-of-view-of', ':part-of-speech-of-of', ':out-of-of-range', ':of', ':x-ofy-of']
 ATOMS = [None, '', 'a', 'b', 'v1', '"x~y"~1', '"a b"', '12', '-1.5e3', '+', '-', 'x~e.1', '"s"', '0', '0.0', 'abc~1',
          '"\\""', '"a\\\\"', '1e', 'inf', 'nan', '1_0', '"', '"x', 'imperative', '"multi word"~e.3,4', 'x~', 1, 0, 1.5,
          '0x1', '١', ' 1', '.5', '5.', '-0', '1e400']
@@ -214,6 +215,9 @@ def value_for(ctx, target, pname, kind, sofar):
         return r.choice([None, ctx.var(), ctx.var()])
     if pname == 'target' and kind == 'val':
         return r.choice([None, ctx.var(), r.choice(ATOMS)])
+    if pname == 's' and 'from_string' in target:
+        return r.choice(['1', 'e.2,3', '~4', 'e.4,3', '3,1,2', 'x7', '5,5', 'E.10,2', '~e.9,8,7', '', 'e.', 'a,b', '01',
+                         'e.1,', '12,0,3'])
     if pname == 'fmt':
         return r.choice(['{prefix}{j}', '{prefix}{i}', 'a{i}', '{prefix}_{i}{j}', '{i}{prefix}', 'v{j}', 'x', '{prefix}'])
     if pname in ('target', 'constant_string'):
@@ -267,6 +271,15 @@ def value_for(ctx, target, pname, kind, sofar):
 def resolve(target):
     mod, qual = target.split(':')
     m = importlib.import_module(mod)
+    if target == 'penman.surface:AlignmentMarker.from_string':
+        # the class method is exercised through both concrete marker classes
+        fns = [m.Alignment.from_string, m.RoleAlignment.from_string]
+        state = {'k': 0}
+
+        def call(s):
+            state['k'] += 1
+            return fns[state['k'] % 2](s)
+        return ('call', call, None)
     parts = qual.split('.')
     obj = m
     if parts[-1] == 'setter':
